@@ -22,7 +22,7 @@ def same(a, b):
     return a.dtype==b.dtype and a.shape==b.shape and np.array_equal(a,b, equal_nan=a.dtype.kind in 'fc')
 buckets = collections.defaultdict(list)
 cnt=0
-for it in range(30000):
+for it in range(int(__import__("os").environ.get("RECON_N", 30000))):
     lens = rand_lengths(); n=sum(lens)
     d1 = random.choice(dts); d2=random.choice(dts)
     a = rand_data(n,d1); ra = RaggedArray(a.copy(), lens)
